@@ -10,7 +10,7 @@ try:
         m=re.match(r'(caught|MISSED)\s+seeded/(\S+)/patch.diff', l)
         if m: last[m.group(2)]=m.group(1)
 except Exception: pass
-boundedOnly={'C01-A','C03-D','C04-B','C12-B','C15-A','C27-A'}
+boundedOnly={'C01-A','C03-D','C04-B','C12-B','C15-A','C27-A','C10-B','C18-E'}
 for d in sorted(glob.glob('/verif/seeded/*-*/')):
     name=os.path.basename(d.rstrip('/'))
     try: m=json.load(open(d+'meta.json'))
